@@ -447,6 +447,7 @@ struct Sim {
     ids: HashMap<Vec<u8>, (usize, u32)>, // claim id -> (issuer index, topic)
     rv: Vec<(usize, usize, u32, Vec<u8>)>, // revocation triples seen in revoke op lines
     pool: Vec<Vec<u8>>,                    // claim data used so far
+    accepted: Vec<(usize, ClaimSpec)>,     // claims an identity contract accepted (most recent last)
 }
 
 const SEQ0: u32 = 100;
@@ -500,7 +501,7 @@ impl Sim {
                 ids.insert(sha3::Keccak256::digest(&d).to_vec(), (i, t));
             }
         }
-        Sim { e, u, keys: make_keys(), ts: TS0, seq: SEQ0, tags: HashMap::new(), ids, rv: vec![], pool: vec![] }
+        Sim { e, u, keys: make_keys(), ts: TS0, seq: SEQ0, tags: HashMap::new(), ids, rv: vec![], pool: vec![], accepted: vec![] }
     }
     fn a(&self, i: usize) -> Val {
         self.u.a(i).into_val(&self.e)
@@ -803,7 +804,14 @@ impl Sim {
             e,
             [v(e, c.topic), v(e, c.scheme), self.a(c.issuer), v(e, Bytes::from_slice(e, &c.sig_data)), v(e, Bytes::from_slice(e, &c.data)), v(e, SString::from_str(e, "u"))],
         );
-        self.run(t, format!("id add_claim d={} {}", d, self.claim_fields(c)), d, "add_claim", x)
+        let ok = self.run(t, format!("id add_claim d={} {}", d, self.claim_fields(c)), d, "add_claim", x);
+        if ok {
+            self.accepted.push((d, c.clone()));
+            if self.accepted.len() > 16 {
+                self.accepted.remove(0);
+            }
+        }
+        ok
     }
     fn raw_put(&mut self, t: &mut Trace, d: usize, ci_: usize, ct: u32, c: &ClaimSpec) -> bool {
         let e = &self.e;
@@ -965,12 +973,15 @@ fn directed(t: &mut Trace, rng: &mut Rng) {
         // expiry boundary: valid while timestamp < valid_until
         s.time(t, TS0 + 999);
         s.time(t, TS0 + 1000);
+        s.add_claim(t, 8, &c0); // the stored claim, byte for byte, after it expired: refused
         s.time(t, TS0 + 1001);
         s.time(t, TS0);
         // revocation and un-revocation
         let d0 = c0.data.clone();
         s.revoke(t, 4, 8, topic, &d0, true);
+        s.add_claim(t, 8, &c0); // the stored claim resubmitted after its revocation: refused
         s.invalidate(t, 4, 8, topic); // the revocation survives the nonce bump
+        s.add_claim(t, 8, &c0);
         let c1 = s.good_claim(4, 8, topic, k, TS0 + 1000, b"kyc", rng); // same data, new nonce
         s.valid(t, 8, &c1);
         s.revoke(t, 4, 8, topic, &d0, false);
@@ -983,6 +994,7 @@ fn directed(t: &mut Trace, rng: &mut Rng) {
         s.allow_key(t, 4, k, sch, 1, topic); // registry 1 does not know issuer 4
         s.remove_key(t, 4, k, sch, 0, topic);
         s.verify_op(t, 11);
+        s.add_claim(t, 8, &c1); // the stored claim resubmitted after its key was removed: refused
         s.allow_key(t, 4, k, sch, 0, topic);
         // de-listing after signing
         s.remove_issuer(t, 0, 4);
@@ -1696,6 +1708,13 @@ fn random_seq(t: &mut Trace, rng: &mut Rng, label: &str, len: u64) {
                 s.remove_key(t, i, k, sc, reg, tp);
             }
         } else if r < 62 {
+            if !s.accepted.is_empty() && rng.chance(22) {
+                // a claim accepted earlier, byte for byte (mostly to the same identity): the issuer is asked again
+                let (d0, c) = s.accepted[s.accepted.len() - 1 - rng.below(s.accepted.len().min(4) as u64) as usize].clone();
+                let d = if rng.chance(85) { d0 } else { *rng.pick(&IDS) };
+                s.add_claim(t, d, &c);
+                continue;
+            }
             let pb = rng.chance(25);
             let (d, c) = gen_claim(&mut s, rng, pb);
             s.add_claim(t, d, &c);
